@@ -51,6 +51,25 @@ type BloomIn struct {
 	// Vertical: the filters of one full vertical group (128 segments) are transposed by logstore.FlushVerticalFilter into
 	// the detached/OBS file format and read back through BloomFilterIndexReader.ReInit(OBSFilterPath) -> VerticalFilterReader
 	Vertical bool `json:"vertical,omitempty"`
+	// Chop[i]: bytes cut off the end of content[i] at run time - a value that ends inside a multi-byte character (truncated,
+	// i.e. invalid UTF-8; a JSON string cannot carry such bytes itself)
+	Chop []int `json:"chop,omitempty"`
+}
+
+// effective: the case with the chopped values
+func (in *BloomIn) effective() *BloomIn {
+	if len(in.Chop) == 0 {
+		return in
+	}
+	e := *in
+	e.Content = append([]*string(nil), in.Content...)
+	for i, n := range in.Chop {
+		if i < len(e.Content) && e.Content[i] != nil && n > 0 && n < len(*e.Content[i]) {
+			s := (*e.Content[i])[:len(*e.Content[i])-n]
+			e.Content[i] = &s
+		}
+	}
+	return &e
 }
 
 type BAtomObs struct {
@@ -173,9 +192,7 @@ func tokProbe(in *BloomIn) *TokObs {
 			tokenizer.NewSimpleTokenizer(table).ProcessTokenizerBatch(col.Val, ref[:len(ref)-4], offs, lens)
 			tv.WriterBytewise = string(ref[:len(ref)-4]) == string(data[:len(data)-4])
 		})
-		if p != "" {
-			tv.RealOK = false
-		}
+		_ = p // a panic of the writer on this value alone is reported by the case's own writer run (oracle), not here
 		ob.Vals = append(ob.Vals, tv)
 	}
 	n := 0
@@ -353,8 +370,9 @@ func scanWith(file interface{}, cond influxql.Expr, schemaNames []string, segCnt
 	return
 }
 
-func runBloomCase(id int, in *BloomIn, work string) *BloomOut {
-	out := &BloomOut{BID: id, In: in, SegCnt: len(in.Sizes), Ranges: [][2]int{}, Oracle: []string{}, Atoms: []BAtomObs{}}
+func runBloomCase(id int, orig *BloomIn, work string) *BloomOut {
+	in := orig.effective()
+	out := &BloomOut{BID: id, In: orig, SegCnt: len(in.Sizes), Ranges: [][2]int{}, Oracle: []string{}, Atoms: []BAtomObs{}}
 	n := len(in.Content)
 	dir := path.Join(work, "bloom", strconv.Itoa(id))
 	if err := os.MkdirAll(dir, 0700); err != nil {
@@ -619,6 +637,14 @@ func genBloomCase(r *gen.Rand) *BloomIn {
 			left -= s
 		}
 		in.RPF = 1 + r.Intn(5)
+	}
+	if nonASCII > 0 && r.Chance(1, 2) {
+		in.Chop = make([]int, n)
+		for i := range in.Content {
+			if v := in.Content[i]; v != nil && len(*v) > 2 && (*v)[len(*v)-1] >= 0x80 && r.Chance(1, 2) {
+				in.Chop[i] = 1 + r.Intn(2)
+			}
+		}
 	}
 	in.LastMinus1 = r.Bool()
 	switch r.Intn(10) {
